@@ -50,6 +50,12 @@ CHECKS = {
         text="Decides (i) failure reporting: under injected stepper faults and on networks without steady state (accumulation, growth, non-autonomous drive, scan rows with k=0) the outcome must be a failure value / NaN row, never a state; (ii) bounded liveness in simulated time: stable networks with relaxation times 0.05..400 must report success within the 1000-poll budget. The clause 'a reported success equals the analytic steady state, fluxes balance, default/user y0, abs/rel norm' is evaluated on the same runs as plain seeded sampling.",
         note="Only the repo's real Scipy integrator (the loop under test lives there). Accuracy bound 1e-4*(1+|x*|) + 100*tolerance. The accuracy clause is a pure function of the input: sampled, not decided by scheduling/fault search.",
     ),
+    "C18": dict(
+        engine="mca", category="exploration", design_ref="DESIGN.md §4.5",
+        technique="deterministic simulation of schedules: MCA routines run sequentially (shared model) and under a simulated pool (W in 1..16, seeded completion order), with content-keyed steady-state failures; before/after snapshots of the caller's model; closed-form sensitivities of power-law chains as value oracle",
+        text="For seeded power-law chains: variable/parameter elasticities (scaled/unscaled, default/given state, to_scan subsets), mca.response_coefficients under sequential and pool schedules (with and without variables=), mc.response_coefficients. Decided: the caller's model content, parameter values and initial values are identical before and after every routine under every schedule; coefficient tables are identical across schedules; inside those runs the values equal the kinetic orders resp. the closed-form steady-state sensitivities.",
+        note="Value oracle tolerance: 1e-6 for elasticities, 1e-5 (ExactLinear) / 3e-2 plus difference-quotient noise (real Scipy) for response coefficients. In-process SimPool.",
+    ),
     "C19": dict(
         engine="crash", category="fault_enumeration", design_ref="DESIGN.md §4.6",
         technique="deterministic simulation with crash injection: forked process incarnations killed at every traced line of mxlpy/parallel.py and at byte offsets of every result file (torn writes), reruns compared with a cache-free reference",
@@ -61,6 +67,7 @@ CHECKS = {
 ENGINES = [
     {"name": "simkit", "path": "simkit/", "serves_properties": sorted(CHECKS), "kind_free_text": "seeded scheduler core: labelled PRNG streams, fork-based runner with watchdog, trace digests, ddmin shrinker, replay files, known-finding matching, evidence writer"},
     {"name": "crash", "path": "simkit/machines/crash.py", "serves_properties": ["C19"], "kind_free_text": "crash-history machine: fork+settrace kill points, CrashPath torn writes (simkit/crashfs.py), SimPool (simkit/simpool.py)"},
+    {"name": "mca", "path": "simkit/machines/mca.py", "serves_properties": ["C18"], "kind_free_text": "MCA machine: sequential vs SimPool schedules, snapshots, analytic power-law sensitivities"},
     {"name": "scans", "path": "simkit/machines/scans.py", "serves_properties": ["C09"], "kind_free_text": "scan-schedule machine: SimPool (simkit/simpool.py), Faulty/ExactLinear integrators, independent-row oracle"},
     {"name": "simtime", "path": "simkit/machines/simtime.py", "serves_properties": ["C04", "C14"], "kind_free_text": "simulator-history machine: reference model of time keeping, closed-form families (simkit/models.py), integrator seam (simkit/integrators.py)"},
     {"name": "steady", "path": "simkit/machines/steady.py", "serves_properties": ["C15"], "kind_free_text": "steady-state machine: FaultyOde stepper seam, relaxation-time sweep, scan rows without steady state"},
